@@ -19,6 +19,8 @@
 (*    CPUs the value is zero-extended from its low 32 bits;                  *)
 (*  - crash reason class from OS family, code and parameter count;           *)
 (*  - process id: misc info if that stream exists, else /proc status;        *)
+(*  - process creation time: misc info's process times when flagged; dump    *)
+(*    time: the header's time stamp, whatever its value;                      *)
 (*  - a frame outside every loaded module lists every unloaded module that   *)
 (*    covers its address with the offset into it.                            *)
 (***************************************************************************)
@@ -37,17 +39,19 @@ Excs == ExcsA \cup ExcsB
 NoBp == [k |-> "none", dump |-> 0, req |-> 0]
 Bps == {[k |-> "some", dump |-> d, req |-> r] : d \in {0, 1, 2}, r \in {0, 1, 2, 9}}      \* 0 = field not valid
 Platforms == {<<"windows", "x86">>, <<"windows", "amd64">>, <<"linux", "amd64">>, <<"linux", "x86">>, <<"mac", "amd64">>}
-VARIABLES threads, exc, bp, plat, misc, status
-vars == <<threads, exc, bp, plat, misc, status>>
-Init == threads = <<>> /\ exc = NoExc /\ bp = NoBp /\ plat = <<"windows", "x86">> /\ misc = "none" /\ status = "none"
-AddThread == Len(threads) < MaxThreads /\ (Len(threads) = 0 \/ (exc \in ExcsA \cup {NoExc} /\ plat = <<"windows", "x86">> /\ misc = "none" /\ status = "none")) /\ \E t \in Thr : (Len(threads) >= 1 => (t.named /\ t.spot = "mod")) /\ threads' = Append(threads, t) /\ UNCHANGED <<exc, bp, plat, misc, status>>
+VARIABLES threads, exc, bp, plat, misc, status, stamp
+vars == <<threads, exc, bp, plat, misc, status, stamp>>
+Init == threads = <<>> /\ exc = NoExc /\ bp = NoBp /\ plat = <<"windows", "x86">> /\ misc = "none" /\ status = "none" /\ stamp = "zero"
+AddThread == Len(threads) < MaxThreads /\ (Len(threads) = 0 \/ (exc \in ExcsA \cup {NoExc} /\ plat = <<"windows", "x86">> /\ misc = "none" /\ status = "none")) /\ \E t \in Thr : (Len(threads) >= 1 => (t.named /\ t.spot = "mod")) /\ threads' = Append(threads, t) /\ UNCHANGED <<exc, bp, plat, misc, status, stamp>>
 \* to keep the space small the exception record varies fully only for one thread shape
-SetException == exc = NoExc /\ misc = "none" /\ status = "none" /\ \E e \in (IF Len(threads) <= 1 /\ bp = NoBp THEN Excs ELSE ExcsA) : exc' = e /\ UNCHANGED <<threads, bp, plat, misc, status>>
-SetBreakpad == bp = NoBp /\ exc \in ExcsA \cup {NoExc} /\ plat = <<"windows", "x86">> /\ \E b \in Bps : bp' = b /\ UNCHANGED <<threads, exc, plat, misc, status>>
-SetPlatform == plat = <<"windows", "x86">> /\ Len(threads) <= 1 /\ bp = NoBp /\ misc = "none" /\ status = "none" /\ \E p \in Platforms : plat' = p /\ UNCHANGED <<threads, exc, bp, misc, status>>
-SetMisc == misc = "none" /\ Len(threads) <= 1 /\ exc = NoExc /\ bp = NoBp /\ plat = <<"windows", "x86">> /\ \E m \in {"pid", "nopid"} : misc' = m /\ UNCHANGED <<threads, exc, bp, plat, status>>
-SetStatus == status = "none" /\ Len(threads) <= 1 /\ exc = NoExc /\ bp = NoBp /\ plat = <<"windows", "x86">> /\ status' = "pid" /\ UNCHANGED <<threads, exc, bp, plat, misc>>
-Next == AddThread \/ SetException \/ SetBreakpad \/ SetPlatform \/ SetMisc \/ SetStatus
+SetException == exc = NoExc /\ misc = "none" /\ status = "none" /\ \E e \in (IF Len(threads) <= 1 /\ bp = NoBp THEN Excs ELSE ExcsA) : exc' = e /\ UNCHANGED <<threads, bp, plat, misc, status, stamp>>
+SetBreakpad == bp = NoBp /\ exc \in ExcsA \cup {NoExc} /\ plat = <<"windows", "x86">> /\ \E b \in Bps : bp' = b /\ UNCHANGED <<threads, exc, plat, misc, status, stamp>>
+SetPlatform == plat = <<"windows", "x86">> /\ Len(threads) <= 1 /\ bp = NoBp /\ misc = "none" /\ status = "none" /\ \E p \in Platforms : plat' = p /\ UNCHANGED <<threads, exc, bp, misc, status, stamp>>
+SetMisc == misc = "none" /\ Len(threads) <= 1 /\ exc = NoExc /\ bp = NoBp /\ plat = <<"windows", "x86">> /\ \E m \in {"pid", "nopid", "pid_times", "nopid_times"} : misc' = m /\ UNCHANGED <<threads, exc, bp, plat, status, stamp>>
+SetStatus == status = "none" /\ Len(threads) <= 1 /\ exc = NoExc /\ bp = NoBp /\ plat = <<"windows", "x86">> /\ status' = "pid" /\ UNCHANGED <<threads, exc, bp, plat, misc, stamp>>
+\* the header's time stamp (seconds since the epoch): zero is a time like any other
+SetStamp == stamp = "zero" /\ Len(threads) <= 1 /\ exc = NoExc /\ bp = NoBp /\ plat = <<"windows", "x86">> /\ stamp' \in {"some", "max"} /\ UNCHANGED <<threads, exc, bp, plat, misc, status>>
+Next == AddThread \/ SetException \/ SetBreakpad \/ SetPlatform \/ SetMisc \/ SetStatus \/ SetStamp
 Spec == Init /\ [][Next]_vars
 
 DumpTid == IF bp.k = "some" /\ bp.dump # 0 THEN bp.dump ELSE 0
@@ -69,15 +73,17 @@ Reason == IF exc.k = "none" THEN "none"
                (IF exc.np >= 1 THEN (CASE exc.kind = 0 -> "av_read" [] exc.kind = 1 -> "av_write" [] exc.kind = 8 -> "av_exec") ELSE "av")
           ELSE IF plat[1] = "windows" /\ exc.code = "inpage" THEN "any"
           ELSE "any"
-Pid == IF misc = "pid" THEN "misc" ELSE IF misc = "nopid" THEN "absent" ELSE IF status = "pid" THEN "status" ELSE "absent"
+\* process creation time: misc info with the process-times flag, never anything else; dump time: the header stamp
+CreateTime == IF misc \in {"pid_times", "nopid_times"} THEN "misc" ELSE "absent"
+Pid == IF misc \in {"pid", "pid_times"} THEN "misc" ELSE IF misc \in {"nopid", "nopid_times"} THEN "absent" ELSE IF status = "pid" THEN "status" ELSE "absent"
 \* unloaded modules covering frame 0 of thread i (only when it lies in no loaded module)
 Unl(i) == IF Src(i) # "thread" THEN {} ELSE CASE threads[i].spot = "unl" -> {"u1"} [] threads[i].spot = "unl2" -> {"u1", "u2"} [] OTHER -> {}
 Expected == [ infos |-> [i \in 1..Len(threads) |-> Info(i)], srcs |-> [i \in 1..Len(threads) |-> Src(i)],
               ids |-> [i \in 1..Len(threads) |-> threads[i].id], named |-> [i \in 1..Len(threads) |-> \E j \in 1..Len(threads) : threads[j].id = threads[i].id /\ threads[j].named],     \* names are keyed by thread id
-              unl |-> [i \in 1..Len(threads) |-> Unl(i)], req |-> ReqSet, addr |-> CrashAddr, reason |-> Reason, pid |-> Pid ]
+              unl |-> [i \in 1..Len(threads) |-> Unl(i)], req |-> ReqSet, addr |-> CrashAddr, reason |-> Reason, pid |-> Pid, ctime |-> CreateTime, time |-> stamp ]
 \* ---- design-level sanity ----
 ReqNotSkipped == \A i \in ReqSet : Info(i) # "skipped"
 ReqPrefersException == (exc.k = "some" /\ bp.k = "some" /\ bp.req # 0 /\ bp.req # exc.tid) => \A i \in ReqSet : threads[i].id = exc.tid
 ExcContextOnlyForReq == \A i \in 1..Len(threads) : Src(i) = "exception" => IsReq(i)
-Emit == PrintT(<<"CASE", ToJson([threads |-> threads, exc |-> exc, bp |-> bp, plat |-> plat, misc |-> misc, status |-> status, exp |-> Expected])>>)
+Emit == PrintT(<<"CASE", ToJson([threads |-> threads, exc |-> exc, bp |-> bp, plat |-> plat, misc |-> misc, status |-> status, stamp |-> stamp, exp |-> Expected])>>)
 ====
